@@ -199,6 +199,16 @@ impl<'a> LTr<'a> {
                 self.expr(&Expr::Repeat(r))
             }
             Expr::Tuple(t) if t.elems.is_empty() => Ok(("()".into(), LTy::Unit)),
+            Expr::Tuple(t) => {
+                let mut vs = vec![];
+                let mut ts = vec![];
+                for e in &t.elems {
+                    let (v, ty) = self.expr(e)?;
+                    vs.push(v);
+                    ts.push(ty);
+                }
+                Ok((format!("({})", vs.join(", ")), LTy::Tup(ts)))
+            }
             Expr::Macro(m) if path_last(&m.mac.path) == "matches" => self.matches_macro(&m.mac),
             Expr::Match(m) => {
                 // a `match` in operand position: its value is bound first
@@ -296,10 +306,12 @@ impl<'a> LTr<'a> {
         let (r, rt) = self.expr(&b.right)?;
         let ty = if lt != LTy::Unknown { lt.clone() } else { rt.clone() };
         match b.op {
-            Add(_) | Sub(_) | Mul(_) => {
+            Add(_) | Sub(_) | Mul(_) | Div(_) | Rem(_) => {
                 let f = match b.op {
                     Add(_) => "add",
                     Sub(_) => "sub",
+                    Div(_) => "div",
+                    Rem(_) => "rem",
                     _ => "mul",
                 };
                 let t = self.opt_tmp(&format!("Rs.Arith.{f} {l} {r}"));
@@ -502,6 +514,16 @@ impl<'a> LTr<'a> {
                 return Err("find(..) with something other than an ASCII char literal".into());
             }
             (LTy::Str, "to_string") if args.is_empty() => return Ok((recv, LTy::Str)),
+            // `AtomicU64::load()` of types.rs (a field the main translation holds as its value)
+            (LTy::Int(t), "load") if args.is_empty() && t == "UInt64" && recv_place.is_some() => return Ok((recv, rty.clone())),
+            // iterators over the characters of a string, as lists
+            (LTy::Str, "chars") if args.is_empty() => return Ok((format!("(Rs.Str.chars {recv})"), LTy::List(Box::new(self.int("Char"))))),
+            (LTy::List(_), "rev") if args.is_empty() => return Ok((format!("(List.reverse {recv})"), rty.clone())),
+            (LTy::List(e), "next") if args.is_empty() && recv_place.is_none() => return Ok((format!("(List.head? {recv})"), LTy::Opt(e.clone()))),
+            (LTy::Opt(inner), "map_or") if args.len() == 2 => {
+                let inner = (**inner).clone();
+                return self.map_or(&recv, &inner, args[0], args[1]);
+            }
             (LTy::Int(c), "to_string") if args.is_empty() && c == "Char" => return Ok((format!("(Rs.Str.ofChar {recv})"), LTy::Str)),
             (LTy::Str, "replace") if args.len() == 2 => {
                 let (a, at) = self.expr(args[0])?;
